@@ -109,7 +109,8 @@ def export_sparse_array(fp: TextIO, A: ttb.sptensor, fmt_data: Optional[str]):
     # TODO: looping through all values may take a long time, can this be more efficient?
     for i in range(A.nnz):
         # 0-based indexing in package, 1-based indexing in file
-        subs = A.subs[i, :] + 1
+        # (in 64 bits: narrow subscript types would wrap around)
+        subs = A.subs[i, :].astype(np.int64) + 1
         subs.tofile(fp, sep=" ", format="%d")
         print(end=" ", file=fp)
         val = A.vals[i][0]
